@@ -13,5 +13,5 @@ while [ $# -ge 2 ]; do
 done
 ( cd "$S" && GOFLAGS=-mod=mod GOPROXY=off GOTOOLCHAIN=local go build ./... ) || echo "MUTANT DOES NOT BUILD"
 if [ "${RUN_TESTS:-0}" = 1 ]; then ( cd "$S" && GOFLAGS=-mod=mod GOPROXY=off GOTOOLCHAIN=local go test -count=1 ./... 2>&1 | grep -v '^ok' | head -20 ); fi
-mkdir -p "${VERIF_OUT:-/tmp/mutverif}"; cp /verif/known_findings.json "${VERIF_OUT:-/tmp/mutverif}/"; /verif/bin/verifcheck check "$ID" --repo "$S" --verif "${VERIF_OUT:-/tmp/mutverif}" | grep -v '^KNOWN' | head -${LINES_MAX:-12}
+mkdir -p "${VERIF_OUT:-/tmp/mutverif}"; cp /verif/known_findings.json "${VERIF_OUT:-/tmp/mutverif}/"; ${VERIFBIN:-/verif/bin/verifcheck} check "$ID" --repo "$S" --verif "${VERIF_OUT:-/tmp/mutverif}" | grep -v '^KNOWN' | head -${LINES_MAX:-12}
 rm -rf "$S"
